@@ -5,13 +5,17 @@ type RAT[K comparable, V any] struct {
 	length int
 	values map[K][]V
 	idx    map[K]int
+	// wrapped tells whether the ring of a key was filled at least once: the
+	// slots after idx hold values only in that case
+	wrapped map[K]bool
 }
 
 func NewRAT[K comparable, V any](length int) *RAT[K, V] {
 	return &RAT[K, V]{
-		length: length,
-		values: make(map[K][]V),
-		idx:    make(map[K]int),
+		length:  length,
+		values:  make(map[K][]V),
+		idx:     make(map[K]int),
+		wrapped: make(map[K]bool),
 	}
 }
 
@@ -40,6 +44,9 @@ func (r *RAT[K, V]) Find(k K, predicate func(V) bool) (V, bool) {
 		}
 	}
 
+	if !r.wrapped[k] {
+		return zero, false
+	}
 	for i := r.length - 1; i > idx; i-- {
 		v := r.values[k][idx]
 		if predicate(v) {
@@ -57,6 +64,9 @@ func (r *RAT[K, V]) Write(k K, value V) {
 		r.values[k] = make([]V, r.length)
 	} else {
 		idx = (idx + 1) % r.length
+		if idx == 0 {
+			r.wrapped[k] = true
+		}
 	}
 
 	r.idx[k] = idx
@@ -82,7 +92,7 @@ func (r *RAT[K, V]) FindValues(predicate func(V) bool) map[K]V {
 				break
 			}
 		}
-		if found {
+		if found || !r.wrapped[k] {
 			continue
 		}
 		for i := r.length - 1; i > v; i-- {
